@@ -23,7 +23,8 @@ RULE = ("cases = (generator, parameters as exact rationals / ints / dyadic float
         "oracle = the closed form of the statement evaluated in exact rational "
         "arithmetic (modcount_ref naive recursion + closed form, own Lagrange "
         "interpolation for resample_ref, cyclic linear interpolation for the table, "
-        "direct linearised comb recursion for karplus_strong); non-trivial = at least "
+        "direct linearised comb recursion for karplus_strong on the memory given as data, as a size-dependent "
+        "burst function or left out); non-trivial = at least "
         "4 samples and a non-integer parameter (for modulo_counter additionally a "
         "wrap); distinct = distinct case hash")
 ASSUMPTIONS = [
@@ -39,14 +40,21 @@ ASSUMPTIONS = [
   "asserted exactly on every branch and, with a constant modulo, the value within 1e-9*max(1, modulo) of "
   "the exact sum of the given doubles, measured round the circle; |step| is 0 or >= 1e-6",
   "TableLookup: tbl[idx] is checked for idx >= 0 (the oscillator only produces [0, L)); "
-  "the float constant L/(cycles*2*pi) is taken at its exact double value",
+  "the float constant L/(cycles*2*pi) is taken at its exact double value; tables of more than 64 entries "
+  "(up to 2**17+3, incl. the package's sin_table / saw_table) are played with exact rational freq / phase / index only",
+  "ones / zeros / impulse / noise: an earlier result of the same call may have been changed in place by its owner "
+  "(Stream.limit / skip / append / map / abs / take) - the call under test still has its documented duration and values",
   "sinusoid: freq and phase are each a number or a finite stream; item n of a phase stream is the phase "
   "of sample n and the output ends with the shortest stream",
   "sinusoid / float oscillator / karplus_strong: tolerance 1e-9 (relative to the "
   "amplitude), > 10^5 above the observed rounding error; float frequencies are 0 or at "
   "least 1e-6 in magnitude (for |freq| < ~3.5e-308 modulo/step overflows to inf inside "
   "modulo_counter - a double-precision artefact outside the exact-arithmetic statement)",
-  "karplus_strong: freq > 0 with lags 2*pi/freq from 1e-3 to ~14 samples, tau > 0 (or inf); for a "
+  "karplus_strong: freq > 0 with lags 2*pi/freq from 1e-3 to 400 samples, tau > 0 (or inf); the memory is an "
+  "iterable with at least as many items as the comb has delay cells, or a function of the size (called with the "
+  "number of delay cells lm = int(lag) + 1, or int(lag) for a whole lag; its first lm items are the memory), or left "
+  "out (documented default = the white_noise function: the reference memory is white_noise(lm) under the same "
+  "random seed); for a "
   "lag below one sample the left interpolation neighbour is the current output sample, so the "
   "comb equation is solved for it: y[i] = alpha*w*y[i-1] / (1 - alpha*(1-w))",
   "resample: input length >= rint((order+1)/2) (a shorter input cannot fill the leading "
@@ -217,7 +225,9 @@ def run_line(case):
 # --------------------------------------------------------------------------
 # ones / zeros / impulse / noise : durations and values
 # --------------------------------------------------------------------------
-_ddur = st.one_of(st.just(None), st.just("omitted"), st.just("inf"), _dur, _dur, _dur)
+# (the last branch: exactly half a sample, the shortest duration that still gives one sample)
+_ddur = st.one_of(st.just(None), st.just("omitted"), st.just("inf"), _dur, _dur, _dur,
+                  st.sampled_from([Q(1, 2), .5]))
 
 
 def _fix_noise(c):
@@ -235,8 +245,14 @@ def _fix_noise(c):
 def strat_durations(tier):
   return st.fixed_dictionaries(dict(
     gen=st.sampled_from(["ones", "zeros", "zeroes", "impulse", "impulse", "white_noise",
-                         "white_noise", "gauss_noise"]),
+                         "white_noise", "gauss_noise", "ones", "zeros"]),
     dur=_ddur, take=st.integers(1, 20),
+    # what the owner of an EARLIER result of the very same call did to his own Stream (the Stream
+    # methods limit / skip / append / map / abs change the object they are called on) before the
+    # call under test is made: every call has its documented duration and values, whatever happened
+    # to the streams returned before
+    history=st.sampled_from(["none", "none", "limit", "limit", "skip", "append", "map", "abs", "take"]),
+    hk=st.integers(0, 5),
     one=st.one_of(st.just("default"), qval()), zero=st.one_of(st.just("default"), qval()),
     low=st.one_of(st.just("default"), qval(), st.integers(-3, 3), st.sampled_from([-.5, .25])),
     high=st.one_of(st.just("default"), qval(), st.integers(-3, 3), st.sampled_from([.5, 1.75])),
@@ -262,13 +278,33 @@ def run_durations(case):
   random.seed(case["seed"])
   fn = dict(ones=ones, zeros=zeros, zeroes=zeroes, impulse=impulse,
             white_noise=white_noise, gauss_noise=gauss_noise)[gen]
+  hist, hk = case["history"], case["hk"]
+  if hist != "none":
+    first = fn(*args, **kw)
+    if hist == "limit":                       # the gate idiom: ones().limit(4)
+      take(first.limit(hk), hk + 2)
+    elif hist == "skip":
+      take(first.skip(hk), 2)
+    elif hist == "append":
+      take(first.append([Q(7), Q(-7)]), 3)
+    elif hist == "map":
+      take(first.map(lambda v: v + 7), 2)
+    elif hist == "abs":
+      take(abs(first), 2)
+    else:
+      first.take(hk)
+    random.seed(case["seed"])
   s = fn(*args, **kw)
   what = "%s(%s)" % (gen, ", ".join([repr(a) for a in args] + ["%s=%r" % kv for kv in sorted(kw.items())]))
+  if hist != "none":
+    what += " [after an earlier %s result was changed by its owner: .%s]" % (gen, hist)
   if endless:
     n = case["take"]
     got = take(s, n)
     if len(got) != n:
-      raise Violation("%s should be endless but ended after %d samples" % (what, len(got)))
+      raise Violation("%s should be endless but ended after %d samples%s" % (
+        what, len(got), "" if hist != "none" else " (no earlier result was touched in THIS case: if the replay "
+        "holds alone, the generator carries state across calls - see the cases with a history)"))
   else:
     n = nlen(dur)
     got = pull(s, n + 3, what)
@@ -288,10 +324,18 @@ def run_durations(case):
     if not ok:
       raise Violation("%s: sample %d is %r (got=%r)" % (what, i, v, got[:12]))
   labels = [gen, "endless" if endless else "finite"]
+  if hist != "none":
+    labels += ["earlier result changed in place", "history:" + hist]
+    if endless:
+      labels.append("endless after an earlier result was changed in place")
+      if gen in ("ones", "zeros", "zeroes"):
+        labels.append("endless constant after an earlier result was changed in place")
   if not endless:
     labels.append("fractional dur" if isnonint(dur) else "integer dur")
     if fr(dur) % 1 == HALF:
       labels.append("dur x.5")
+    if fr(dur) == HALF:
+      labels.append("dur == .5")
     if n == 0:
       labels.append("empty")
   nt = len(got) >= 4 and (endless or isnonint(dur) or bool(kw))
@@ -764,6 +808,18 @@ def strat_table(tier):
     fden=st.sampled_from(_FDEN), fblocks=st.lists(_FBLOCK, min_size=1, max_size=6),
     flaps=st.sampled_from([0, 0, 1, 2, -1]),
     table=st.lists(qval(-3, 3), min_size=1, max_size=8),
+    # table sizes: "small" = the list above as it is; "mid" = 9..64 entries (the list above walked at a
+    # changing pace); "large" / "huge" = hundreds to 2**17 entries incl. powers of two and their
+    # neighbours (dyadic floats from a formula); "module" = the package's own 2**16-entries
+    # sin_table / saw_table, played as they are
+    tsize=st.sampled_from(["small"] * 6 + ["huge", "huge", "module", "module", "mid", "mid", "large", "large", "huge"]),
+    tlen=st.integers(9, 64),
+    tlarge=st.sampled_from([100, 127, 128, 255, 256, 1000, 1023, 1024, 1025, 2048, 4096, 5000]),
+    thuge=st.sampled_from([2 ** 16 + 1, 2 ** 16 + 2, 100000, 2 ** 17, 2 ** 17 + 3]),
+    tmul=st.sampled_from([1, 7, 12, 25, 33]), tmodule=st.sampled_from(["sin_table", "saw_table"]),
+    # an earlier stream asked from the very same oscillator with the very same arguments, and how many
+    # items were taken from it before the stream under test was asked for (0 = no earlier stream)
+    earlier=st.sampled_from([0, 0, 1, 2, 3, 5]),
     cycles=st.sampled_from([1, 1, 2, 3]),
     idx=st.one_of(qf(0, 20, 8), qf(0, 20, 8), st.integers(0, 20), st.integers(0, 160).map(lambda k: k / 8.)),
     freq=fq, phase=st.one_of(st.just("default"), fq),
@@ -773,10 +829,47 @@ def strat_table(tier):
     n=st.integers(1, 40), route=_route))
 
 
+_FORMULA_TABLES = {}
+
+
+def _formula_table(L, mul):
+  """L dyadic floats in [-3.75, 3.75] with jumps between neighbours (kept: built once per process)"""
+  if (L, mul) not in _FORMULA_TABLES:
+    _FORMULA_TABLES[L, mul] = tuple(((i * mul + i // 61) % 61 - 30) / 8. for i in range(L))
+  return list(_FORMULA_TABLES[L, mul])
+
+
+def _tblrepr(case, tbl):
+  if case["tsize"] == "module":
+    return "audiolazy." + case["tmodule"]
+  if len(tbl) <= 16:
+    return repr(tbl)
+  return "<%d entries: %s ...>" % (len(tbl), ", ".join(repr(v) for v in tbl[:8]))
+
+
 def run_table(case):
   tbl, cycles, mode = list(case["table"]), case["cycles"], case["mode"]
+  tsize = case["tsize"]
+  module_table = None
+  if tsize == "mid":
+    tbl = [tbl[(i + i // 3) % len(tbl)] + Q(i % 5, 4) for i in range(case["tlen"])]
+  elif tsize in ("large", "huge"):
+    tbl = _formula_table(case["tlarge"] if tsize == "large" else case["thuge"], case["tmul"])
+  elif tsize == "module":
+    module_table = getattr(audiolazy, case["tmodule"])
+    tbl, cycles = module_table.table, module_table.cycles
+    if cycles != 1 or len(tbl) != audiolazy.DEFAULT_TABLE_SIZE:
+      raise Violation("%s has %d entries and %r cycles; documented: DEFAULT_TABLE_SIZE = %d entries, one cycle"
+                      % (case["tmodule"], len(tbl), cycles, audiolazy.DEFAULT_TABLE_SIZE))
+  if tsize in ("large", "huge", "module") and mode in ("osc_float", "osc_fstream"):
+    # float positions in a table of thousands of entries carry an error of about L * 1e-16 entries, times
+    # the jump between neighbours: big tables are played with exact rational freq / phase only
+    mode = "osc_exact"
   L = len(tbl)
-  if (L + cycles + len(mode)) % 3 == 0:
+  if module_table is not None:
+    t = module_table
+    reprogrammed = False
+  elif (L + cycles + len(mode)) % 3 == 0:
     # the table and the cycle count are plain attributes of an oscillator that is kept and
     # re-programmed: what it plays afterwards is the interpolation of its *current* table
     t = TableLookup(list(tbl) + [tbl[0], tbl[-1]], cycles=cycles + 1)
@@ -787,16 +880,24 @@ def run_table(case):
   else:
     t = TableLookup(tbl, cycles=cycles) if cycles != 1 else TableLookup(tbl)
     reprogrammed = False
-  amp = max(abs(fr(v)) for v in tbl)
-  labels = ["table:" + mode, "L=1" if L == 1 else "L>1", "cycles=%d" % cycles]
+  amp = max(abs(fr(v)) for v in tbl) if L <= 64 else Fraction(4)     # (only the float modes use it)
+  labels = ["table:" + mode, "L=1" if L == 1 else "L>1", "cycles=%d" % cycles, "size:" + tsize]
+  if L > 8:
+    labels.append("L>8")
+  if L > 2 ** 16:
+    labels.append("L>2**16")
   if reprogrammed:
     labels.append("table and cycles re-assigned")
   if mode == "getitem":
     idx = case["idx"]
+    if L > 20:
+      idx = idx * (L // 10)                   # 0 .. 2 L, like the small tables
+    if L > 64 and isinstance(idx, float):
+      idx = Q(idx)                            # float entries times a float fraction would round
     got = t[idx]
     exp = interp(tbl, fr(idx))
     if got != exp:
-      raise Violation("TableLookup(%r)[%r] = %r, cyclic linear interpolation gives %r" % (tbl, idx, got, exp))
+      raise Violation("TableLookup(%s)[%r] = %r, cyclic linear interpolation gives %r" % (_tblrepr(case, tbl), idx, got, exp))
     if fr(idx) >= L:
       labels.append("idx beyond table")
     return {"nontrivial": L >= 2 and isnonint(idx), "labels": labels}
@@ -805,13 +906,34 @@ def run_table(case):
   if mode == "osc_exact":
     freq = case["freq"]
     phase = 0. if case["phase"] == "default" else case["phase"]
-    s = t(freq) if case["phase"] == "default" else t(freq, phase)
+    play = (lambda: t(freq)) if case["phase"] == "default" else (lambda: t(freq, phase))
+    ne = case["earlier"]
+    pos = [(cl * fr(phase) + k * cl * fr(freq)) % L for k in range(n + ne + 2)]
+    what = "TableLookup(%s, cycles=%d)(freq=%r, phase=%r)" % (_tblrepr(case, tbl), cycles, freq, phase)
+    if ne:
+      early = play()
+      cmp_seq(take(early, ne), [interp(tbl, p) for p in pos[:ne]], True, 0, what + " [an earlier stream]")
+    s = play()
     got = take(s, n)
-    pos = [(cl * fr(phase) + k * cl * fr(freq)) % L for k in range(n)]
-    what = "TableLookup(%r, cycles=%d)(freq=%r, phase=%r)" % (tbl, cycles, freq, phase)
-    cmp_seq(got, [interp(tbl, p) for p in pos], True, 0, what)
+    cmp_seq(got, [interp(tbl, p) for p in pos[:n]], True, 0,
+            what + (" [asked again after %d items were taken from an earlier stream of the same call]" % ne
+                    if ne else ""))
+    if ne:
+      # ... and the earlier stream goes on from where IT was
+      cmp_seq(take(early, 2), [interp(tbl, p) for p in pos[ne:ne + 2]], True, 0,
+              what + " [the earlier stream, after a second one was asked for and played]")
+      labels.append("same oscillator asked twice")
+    pos = pos[:n]
     # tables derived from this one (operators, normalize) are oscillators of their own table with
     # the same number of cycles: played the same way they give the derived table's interpolation
+    if L > 5000:
+      # (derived tables of 2**16 and more entries: the same code as for the smaller sizes, skipped for time)
+      wrapped = any(pos[k] < pos[k - 1] for k in range(1, len(pos)))
+      if wrapped:
+        labels.append("wrapped")
+      if any(p.denominator != 1 for p in pos):
+        labels.append("between entries")
+      return {"nontrivial": len(got) >= 4, "labels": labels}
     m = max(tbl, key=lambda v: abs(fr(v)))
     variants = [("t * 2", lambda: t * 2, [2 * fr(v) for v in tbl]),
                 ("-t", lambda: -t, [-fr(v) for v in tbl]),
@@ -824,22 +946,31 @@ def run_table(case):
       tn = tf.normalize()
       if not isinstance(tn, TableLookup) or tn.cycles != cycles or len(tn.table) != L or any(
           abs(fr(a) - fr(v) / fr(m)) > Fraction(1, 10 ** 12) for a, v in zip(tn.table, tbl)):
-        raise Violation("normalize() of TableLookup(%r, cycles=%d) has table %r, cycles %r"
-                        % (tbl, cycles, getattr(tn, "table", tn), getattr(tn, "cycles", None)))
+        raise Violation("normalize() of TableLookup(%s, cycles=%d) has table %r, cycles %r"
+                        % (_tblrepr(case, tbl), cycles, getattr(tn, "table", tn)[:20], getattr(tn, "cycles", None)))
     name, mkv, tbl2 = variants[(L + n) % len(variants)]
     t2 = mkv()
     if not isinstance(t2, TableLookup) or t2.cycles != cycles or [fr(v) for v in t2.table] != tbl2:
-      raise Violation("%s of TableLookup(%r, cycles=%d) has table %r, cycles %r; expected %r, %d"
-                      % (name, tbl, cycles, getattr(t2, "table", t2), getattr(t2, "cycles", None), tbl2, cycles))
+      raise Violation("%s of TableLookup(%s, cycles=%d) has table %r, cycles %r; expected %r, %d"
+                      % (name, _tblrepr(case, tbl), cycles, getattr(t2, "table", t2)[:20], getattr(t2, "cycles", None),
+                         tbl2[:20], cycles))
     s2 = t2(freq) if case["phase"] == "default" else t2(freq, phase)
     cmp_seq(take(s2, n), [interp(tbl2, p) for p in pos], True, 0, "%s played like %s" % (name, what))
     labels.append("derived table")
   elif mode == "osc_float":
     freq, phase = case["ffreq"], case["fphase"]
+    ne = case["earlier"]
+    if ne:
+      early = t(freq, phase=phase)
+      take(early, ne)
     got = take(t(freq, phase=phase), n)
     pos = [(cl * fr(phase) + k * cl * fr(freq)) % L for k in range(n)]
-    what = "TableLookup(%r, cycles=%d)(freq=%r, phase=%r)" % (tbl, cycles, freq, phase)
-    cmp_seq(got, [interp(tbl, p) for p in pos], False, Fraction(TOL) * amp, what)
+    what = "TableLookup(%s, cycles=%d)(freq=%r, phase=%r)" % (_tblrepr(case, tbl), cycles, freq, phase)
+    cmp_seq(got, [interp(tbl, p) for p in pos], False, Fraction(TOL) * amp,
+            what + (" [asked again after %d items were taken from an earlier stream of the same call]" % ne
+                    if ne else ""))
+    if ne:
+      labels.append("same oscillator asked twice")
   elif mode == "osc_fstream":
     # vibrato / FM with ordinary floats: the frequency stream moves the read position forth and
     # back by k / den table entries, so that it keeps returning to the table start (position 0 =
@@ -849,7 +980,7 @@ def run_table(case):
     freqs = [k * unit for k in ks] + [unit]
     phase = case["flaps"] * 2 * math.pi * cycles
     n = len(freqs)
-    what = "TableLookup(%r, cycles=%d)(freq=Stream(%r), phase=%r)" % (tbl, cycles, freqs[:8], phase)
+    what = "TableLookup(%s, cycles=%d)(freq=Stream(%r), phase=%r)" % (_tblrepr(case, tbl), cycles, freqs[:8], phase)
     got = pull(t(Stream(freqs), phase) if case["flaps"] else t(Stream(freqs)), n + 3, what)
     pos, tot, at0 = [], cl * fr(phase), 0
     for k in range(n):
@@ -873,7 +1004,7 @@ def run_table(case):
     else:
       phases = [0. if case["phase"] == "default" else case["phase"]] * (n + 2)
       s = t(Stream(freqs), phases[0])
-    what = "TableLookup(%r, cycles=%d)(freq=Stream(%r), phase=%r)" % (tbl, cycles, freqs[:6], phases[:4])
+    what = "TableLookup(%s, cycles=%d)(freq=Stream(%r), phase=%r)" % (_tblrepr(case, tbl), cycles, freqs[:6], phases[:4])
     got = pull(s, n + 3, what)
     pos, tot = [], Fraction(0)
     for k in range(n):
@@ -883,6 +1014,8 @@ def run_table(case):
   wrapped = any(pos[k] < pos[k - 1] for k in range(1, len(pos)))
   if wrapped:
     labels.append("wrapped")
+  if any(p.denominator != 1 for p in pos):
+    labels.append("between entries")
   return {"nontrivial": L >= 2 and len(got) >= 4, "labels": labels}
 
 
@@ -979,12 +1112,51 @@ def strat_karplus(tier):
     tau=st.one_of(st.just("default"), st.just("inf"), st.floats(min_value=3, max_value=1e4, allow_nan=False),
                   st.floats(min_value=.25, max_value=3, allow_nan=False)),
     memory=st.lists(qval(-2, 2), min_size=16, max_size=18),
-    route=st.sampled_from(["list", "stream", "iter", "callable"]),
+    # (memory route, lag mode).  Routes: the memory as a list / Stream / iterator, as a function of the
+    # size ("callable"), or not given at all ("default": the documented default is the white_noise
+    # function, i.e. a burst generator called with the number of delay cells; random is seeded from
+    # the case).  Lag modes: "freq" = the frequency drawn above, "whole" = a whole number of samples,
+    # "long" = an audio-rate note, see below
+    shape=st.sampled_from(_KS_SHAPES),
+    seed=st.integers(0, 2 ** 20),
+    # audio-rate notes: lags of 15 .. 400 samples (the memory is the pool above, walked at a changing
+    # pace, as long as the delay line), whole and fractional
+    long=st.one_of(st.floats(min_value=15, max_value=400, allow_nan=False),
+                   st.one_of(st.integers(15, 400), st.integers(60, 400).map(lambda k: k + .5),
+                             st.integers(120, 3200).map(lambda k: k / 8.))),
+    # a lag of a whole number of samples (freq = 2*pi/L, exact in doubles for these L): the
+    # linearised comb then has ONE tap and L delay cells, one cell less than for L + a fraction
+    whole=st.one_of(st.integers(1, 12), st.integers(1, 12), st.sampled_from([1, 2, 3])),
+    # memory given as a function of the size ("burst generator", like the default white_noise): it is
+    # called with the number of delay cells of the comb, and what it returns is the initial memory
+    burst=st.sampled_from(_BURSTS),
     n=st.integers(1, 50)))
+
+
+# burst generators: name -> (depends on the requested size?, function(mem, size) -> iterable)
+_BURST_FUNCS = {
+  "prefix": (False, lambda mem, size: list(mem[:size])),
+  "longer": (False, lambda mem, size: list(mem[:size + 3])),          # only the first `size` items count
+  "scaled": (True, lambda mem, size: [v / size for v in mem[:size]]),  # normalised burst
+  "rotated": (True, lambda mem, size: (mem[size % len(mem):] + mem[:size % len(mem)])[:size]),
+  "reversed": (True, lambda mem, size: list(mem[:size])[::-1]),
+  "ramp": (True, lambda mem, size: (mem[0] + Q(j, size) for j in range(size))),   # like line(size, a, a + 1)
+  "windowed": (True, lambda mem, size: Stream(v * Q(min(j + 1, size - j), size) for j, v in enumerate(mem[:size]))),
+}
+_KS_SHAPES = ([("list", "freq")] * 4 + [("stream", "freq")] * 3 + [("iter", "freq")] * 3 + [("callable", "freq")] * 3 +
+              [("default", "freq")] * 2 +
+              [("list", "whole"), ("default", "whole")] + [("callable", "whole")] * 3 +
+              [(r, "long") for r in ("list", "stream", "iter", "callable", "default")])
+_BURSTS = ["prefix", "longer", "scaled", "scaled", "rotated", "reversed", "ramp", "windowed"]
 
 
 def run_karplus(case):
   freq, n, mem = case["freq"], case["n"], list(case["memory"])
+  route, lagmode = case["shape"]
+  if lagmode == "long":
+    freq = _lag2freq(case["long"])
+  elif lagmode == "whole":
+    freq = _lag2freq(case["whole"])
   kw = {}
   tau = 2e4
   if case["tau"] == "inf":
@@ -1000,13 +1172,27 @@ def run_karplus(case):
     taps[k + 1] = fr(alpha) * w
   lm = max(taps)
   if lm > len(mem):
-    raise Violation("oracle: memory too short (%d < %d)" % (len(mem), lm))
-  route = case["route"]
-  if route == "callable":
-    memory = lambda size: list(mem[:size])
+    mem = [mem[(j + j // 7) % len(mem)] for j in range(lm + 2)]
+  if lm > 14:
+    n = lm + n                      # far enough for the feedback to be heard
+  sized = False
+  if route == "default":
+    random.seed(case["seed"])
+    mem = list(white_noise(lm))     # what the documented default burst generator gives for lm cells
+    if len(mem) != lm:
+      raise Violation("white_noise(%d) has %d samples" % (lm, len(mem)))
+    random.seed(case["seed"])
+    got = take(karplus_strong(freq, **kw), n)
+  elif route == "callable":
+    sized, burst = _BURST_FUNCS[case["burst"]]
+    given = list(mem)
+    memory = lambda size: burst(given, size)
+    # the initial memory is what the burst generator gives for the comb's lm delay cells
+    mem = list(burst(given, lm))[:lm] if lm else []
   else:
     memory = feed(mem, route)
-  got = take(karplus_strong(freq, memory=memory, **kw), n)
+  if route != "default":
+    got = take(karplus_strong(freq, memory=memory, **kw), n)
   if len(got) != n:
     raise Violation("karplus_strong ended after %d samples" % len(got))
   y = []
@@ -1022,20 +1208,35 @@ def run_karplus(case):
     y.append(sum(c * past(i - dl) for dl, c in taps.items() if dl) / (1 - own))
     if isinstance(got[i], float) and not math.isfinite(got[i]):
       raise Violation("karplus_strong(freq=%r, tau=%r, memory=%r)[%d] = %r"
-                      % (freq, tau, mem[:lm], i, got[i]))
+                      % (freq, tau, mem[:lm][:20], i, got[i]))
     if abs(fr(got[i]) - y[i]) > Fraction(TOL) * amp:
-      raise Violation("karplus_strong(freq=%r, tau=%r, memory=%r)[%d] = %r, linearised comb "
+      raise Violation("karplus_strong(freq=%r, tau=%r, memory=%s%r)[%d] = %r, linearised comb "
                       "(delay=%r, alpha=%r) on the memory gives %r"
-                      % (freq, tau, mem[:lm], i, float(got[i]), delay, alpha, float(y[i])))
+                      % (freq, tau, "burst %s(size=%d) = " % (case["burst"], lm) if route == "callable" else (
+                           "default, random.seed(%d): white_noise(%d) = " % (case["seed"], lm)
+                           if route == "default" else ""),
+                         mem[:lm][:20], i, float(got[i]), delay, alpha, float(y[i])))
   labels = ["karplus", "integer delay" if not w else "fractional delay", "memory:" + route,
             "tau:" + (case["tau"] if isinstance(case["tau"], str) else "given"),
             "lag<1" if k == 0 else ("1<=lag<2" if k == 1 else "lag>=2")]
+  if k >= 15:
+    labels.append("lag>=15")
+    if k >= 64:
+      labels.append("lag>=64")
+    if w:
+      labels.append("lag>=15, fractional")
   if delay == 1:
     labels.append("lag==1")
   if isinstance(tau, float) and tau < 3:
     labels.append("tau<3")
   if n > lm:
     labels.append("feedback reached")
+  if route == "callable":
+    labels.append("burst:" + case["burst"])
+    if sized:
+      labels.append("burst depends on the size")
+      if not w:
+        labels.append("integer delay, burst depends on the size")
   return {"nontrivial": n > lm and bool(w), "labels": labels}
 
 
@@ -1174,9 +1375,13 @@ CLAUSES = [
                  "fractional dur": .15, "dur x.5": .03},
          doc="line/fadein/fadeout: int(dur+.5) samples begin + i*(end-begin)/(dur-finish)"),
   Clause("durations", strat_durations, run_durations, quick=600, thorough=12000,
-         floors={"endless": .08, "finite": .2, "white_noise": .05, "impulse": .05, "dur x.5": .02},
+         floors={"endless": .08, "finite": .2, "white_noise": .05, "impulse": .05, "dur x.5": .02,
+                 "dur == .5": .04, "earlier result changed in place": .3, "history:limit": .06,
+                 "endless after an earlier result was changed in place": .08,
+                 "endless constant after an earlier result was changed in place": .02},
          doc="ones/zeros/impulse/white_noise/gauss_noise: int(dur+.5) samples (endless for None/inf), "
-             "values 1 / 0 / one,zero.. / within [low, high]"),
+             "values 1 / 0 / one,zero.. / within [low, high] - also after an earlier result of the same call "
+             "was changed in place (limit / skip / append / map / abs / take) by its owner"),
   Clause("envelopes", strat_envelopes, run_envelopes, quick=500, thorough=10000,
          floors={"adsr": .15, "attack": .05, "attack_stream": .05, "exact": .2,
                  "fractional segment": .15},
@@ -1203,21 +1408,28 @@ CLAUSES = [
   Clause("table", strat_table, run_table, quick=600, thorough=12000,
          floors={"table:getitem": .06, "table:osc_exact": .1, "table:osc_float": .05,
                  "table:osc_stream": .05, "wrapped": .15, "table:osc_fstream": .03,
-                 "position returns to the table start": .03},
+                 "position returns to the table start": .03, "size:small": .2, "size:mid": .025,
+                 "size:large": .03, "size:module": .015, "size:huge": .02, "L>2**16": .02,
+                 "between entries": .3, "same oscillator asked twice": .1},
          doc="TableLookup[idx] and oscillator == cyclic linear interpolation (exact rational freq / phase as "
-             "numbers and streams; float numbers; float frequency streams that keep returning to the table start)"),
+             "numbers and streams; float numbers; float frequency streams that keep returning to the table start); tables of "
+             "1..8, 9..64, 100..5000, 2**16 (sin_table / saw_table) and up to 2**17+3 entries; the same oscillator "
+             "asked twice gives two independent streams"),
   Clause("sinusoid", strat_sinusoid, run_sinusoid, quick=300, thorough=6000,
          floors={"freq stream": .08, "wrapped": .1, "phase stream": .12, "whole samples per cycle": .08,
                  "varying phase stream": .05, "phase stream changes after the first cycle": .01},
          doc="sinusoid == sin(phase[n] + sum of earlier freq) within 1e-9, freq and phase each a number or a "
              "finite stream (incl. frequencies with a whole number of samples per cycle); ends with the "
              "shortest stream"),
-  Clause("karplus", strat_karplus, run_karplus, quick=300, thorough=6000,
+  Clause("karplus", strat_karplus, run_karplus, quick=500, thorough=8000,
          floors={"fractional delay": .2, "integer delay": .05, "feedback reached": .2,
-                 "lag<1": .12, "1<=lag<2": .1, "lag>=2": .2},
+                 "lag<1": .12, "1<=lag<2": .1, "lag>=2": .2, "memory:callable": .08,
+                 "burst depends on the size": .05, "integer delay, burst depends on the size": .03,
+                 "memory:default": .03, "lag>=15": .04, "lag>=64": .02, "lag>=15, fractional": .02},
          doc="karplus_strong == linearised feedback comb recursion on the given memory within 1e-9, for lags "
-             "2*pi/freq of many samples, between 1 and 2 samples and below one sample (recursion solved "
-             "for the current sample)"),
+             "2*pi/freq of many samples (up to 400), between 1 and 2 samples and below one sample (recursion "
+             "solved for the current sample); memory as list / Stream / iterator, as a function whose result "
+             "depends on the size it is asked for, or left out (white_noise under a seeded random)"),
   Clause("resample", strat_resample, run_resample, quick=900, thorough=12000,
          floors=dict([("order=%d" % p, .05) for p in range(5)],
                      **{"exact": .3, "float ratio": .05, "stream ratio": .05,
